@@ -34,6 +34,14 @@ func loadCorpus(path string) []string {
 // the properties name (lazy quantifiers, look-around at span edges, nullable loops,
 // multi-byte literals, case folding).
 var curatedPatterns = []string{
+	// word boundary + literal prefix + a tail long enough for the DFA strategies (>= 20 NFA states):
+	// greedy / optional / bounded tails after the boundary, several candidates in different word contexts
+	`\bcat\w{4,10}`, `\bERROR: .*`, `\bfoo.\d+`, `\bfoo.+x`, `\bfoo[a-z]{3,8}\d`, `\b(foo|bar)[a-z]{4,8}\d`, `\Bfoo.bar`,
+	`\bfoo\w{2,6}\b`, `foo\w{3,9}\b.`, `\bab[a-z]{2,8}x?\d*`,
+	// start-anchored one-pass patterns with captures: a consuming branch next to a branch that can
+	// match the empty string through a group (one-pass DFA slot handling), optional groups, loops
+	`^a(?:b+|(c*))`, `^(\d+)(?:\.\d+|(e?))`, `^(x)?(?:y+|(z*))w?`, `^(?:(a)|b)(c)?`, `^(\w+)(?:@(\w+))?`, `^(a+)(b+)?`,
+	`^([a-z]+)(?:-([0-9]*))?x?`, `^(?:(ab)|a(c)?)d*`, `^(a)(?:(b)|c+)(d?)`, `^([ab])+(?:c|(d*))e?`,
 	// NFA / DFA / Both
 	`a`, `abc`, `a|b`, `a*`, `a+`, `a?`, `(a|b)*abb`, `(a*)*`, `(a|b*)*`, `(a*)+`, `(a+)*b`, `(|a)*`, `(|a)+`, `(a|)*b`,
 	`a*?`, `a+?`, `a??`, `a{2,3}?`, `(a+?)(b*)`, `(a*?)*`, `x*`, `(?:a|ab)(?:c|bcd)`, `(a|ab)(c|bcd)(d*)`,
